@@ -223,6 +223,8 @@ MUTANTS: List[Dict] = [
     M("total5-swap-args", "breaking", SCFG, "            self.insert_SyntheticTail(solo_tail_name, tails, exits)\n            return solo_tail_name, solo_exit_name\n\n        if len(tails) >= 2 and len(exits) >= 2:", "            self.insert_SyntheticTail(solo_tail_name, exits, tails)\n            return solo_tail_name, solo_exit_name\n\n        if len(tails) >= 2 and len(exits) >= 2:", ["TOTAL-5"]),
     M("total5-exit-from-tails", "breaking", SCFG, "            self.insert_SyntheticExit(solo_exit_name, [solo_tail_name], exits)\n", "            self.insert_SyntheticExit(solo_exit_name, tails, exits)\n", ["TOTAL-5"]),
     M("total5-wrong-return", "breaking", SCFG, "            self.insert_SyntheticExit(solo_exit_name, tails, exits)\n            return solo_tail_name, solo_exit_name\n", "            self.insert_SyntheticExit(solo_exit_name, tails, exits)\n            return solo_tail_name, next(iter(exits))\n", ["TOTAL-5"]),
+    M("ctrl11-precedence", "breaking", TR, "                elif jt in headers and (name not in doms[jt] or name == jt):\n", "                elif jt in headers and name not in doms[jt] or name == jt:\n", ["CTRL-11"], "lost parentheses: any self loop is treated as a back edge to a header"),
+    M("ok-guard-local", "benign", TR, "                elif jt in headers and (name not in doms[jt] or name == jt):\n", "                elif (jt in headers) and ((name not in doms[jt]) or (name == jt)):\n", []),
     # ------------------------------------------------ benign
     M("ok-rename-locals", "benign", TR, None, None, [], "rename locals of loop_restructure_helper (computed edit)"),
     M("ok-sorted-key", "benign", TR, "    for name in sorted(loop):\n", "    for name in sorted(loop, key=str):\n", []),
